@@ -297,9 +297,15 @@ theorem dump_ci_witness : ¬ dump_ci_full false [asc ['C', 'o', 'o', 'k', 'i', '
 was replaced -/
 theorem leaked_ideal (rs : List Bytes) (reqLine hostLine : Bytes) (hs : List Header) (body : Bytes) :
     leaked rs reqLine hostLine hs body (reqLine ++ hostLine ++ idealHeaders rs hs ++ crlf ++ body) = ([], []) := by
+  have h0 : ∀ (X : Bytes) (cs : List Bytes), cs.any (leaks1 X X) = false := by
+    intro X cs
+    rw [List.any_eq_false]
+    intro c _
+    unfold leaks1
+    cases isInfixB c X <;> simp
   unfold leaked
-  simp only [Prod.mk.injEq, List.flatMap_eq_nil_iff, List.filter_eq_nil_iff]
-  constructor <;> intro h _ v _ <;> cases isInfixB v (reqLine ++ hostLine ++ idealHeaders rs hs ++ crlf ++ body) <;> simp
+  simp only [Prod.mk.injEq, List.flatMap_eq_nil_iff, List.filter_eq_nil_iff, h0]
+  constructor <;> intro h _ v _ <;> simp
 
 /-- tie to the source: the lookup canonicalises the map key (`http.CanonicalHeaderKey`) — the model variant
 the driver runs, for which `dump_ci_fixed` is the full statement -/
@@ -313,6 +319,7 @@ theorem gen_loop_shape : Gen.C07.redactsEveryValue = true := by decide
 
 example : keysCanonical [asc ['C']] [(asc ['C'], [[1]]), (asc ['A'], [[2]])] = true
     ∧ keysCanonical [asc ['C']] [(asc ['c'], [[1]])] = false := by decide
+#guard (chunks (List.replicate 300 (7 : UInt8))).length = 4
 example : leaked [asc ['C']] [] [] [(asc ['C'], [[], asc ['s', 'e', 'c']])] []
     (asc ['C', ':', ' ', '\r', '\n', 'C', ':', ' ', 's', 'e', 'c', '\r', '\n', '\r', '\n']) = ([asc ['s', 'e', 'c']], []) := by decide
 
